@@ -160,7 +160,7 @@ def flows_into(fn, start_id, sink_test, table=None, subject=None):
             if sink_test(i, v): reached = True; continue
             if i.id < 0: continue
             if i.op in ("zext", "sext", "trunc"): work.append((i.id, added))
-            elif i.op in ("add", "sub"): work.append((i.id, True))
+            elif i.op in ("add", "sub", "mul", "shl"): work.append((i.id, True))      # summed, or charged once per element
             elif i.op in ("phi", "select"):
                 if not added:
                     others = list(enumerate(inc["v"] for inc in i["incoming"])) if i.op == "phi" else [(1, i.ops[1]), (2, i.ops[2])]
@@ -197,7 +197,9 @@ def size_terms(fn, mod, kind, depth=0):
             t = (tab, role(fn, mod, vals[0]), alts); out.add(t); detail.append((c, t[1], i.line)); continue
         # a helper that is not itself a length function of one value: its own terms, with parameter roles replaced by the actuals'
         inner = set()
-        if depth < 2 and not g.decl: inner, _ = size_terms(g, mod, "size", depth + 1)
+        if depth < 2 and not g.decl:
+            inner, _ = size_terms(g, mod, "size", depth + 1)
+            if not inner: inner, _ = size_terms(g, mod, "cursor", depth + 1)       # a helper that writes and returns the bytes it advanced
         if inner:
             for (tb, r, al) in inner:
                 if r[0] == "param":
